@@ -138,11 +138,11 @@ ValueFails(e) ==    \* the call returned a value: is it what the name denotes?
 MustError(e) ==
   LET f == e.canon  a == e.args IN
   \/ f \in {"min", "max"} /\ ((\E i \in 1 .. Len(a) : a[i].t = "Null") \/ a[1].t \in {"Object", "Array", "Boolean"})   \* no ordering to fold with
-  \/ f \in OneMath \cup {"ceil", "floor"} /\ ~ConvOK(e.mgr, a[1].t, "Double")
+  \/ f \in OneMath \cup {"ceil", "floor"} /\ ~ConvOK(e.mgr, a[1].t, "Double") /\ e.mgr = "safe"    \* (which further conversions the type-unsafe manager offers is not stated)
   \/ f = "choose" /\ a[1].k = "int" /\ a[1].t \in Integral /\ (a[1].n < 0 \/ a[1].n >= Len(a))
   \/ f = "sum" /\ a[1].t \in {"Boolean", "Object", "Array", "DateTime"}
                /\ \A i \in 1 .. Len(a) : a[i].t # "Null"      \* Null propagates through '+' whatever the other operand (C06): Null is acceptable then
-  \/ f = "dayofweek" /\ ~ConvOK(e.mgr, a[1].t, "DateTime")
+  \/ f = "dayofweek" /\ ~ConvOK(e.mgr, a[1].t, "DateTime") /\ e.mgr = "safe"
 \* is an error acceptable although nothing above demands it?  (arguments outside the modelled domain, or a
 \* conversion the installed manager does not offer)
 ConvsOK(e) ==
